@@ -17,14 +17,14 @@ for sid in sorted(idx):
         continue
     note = open(os.path.join(d, 'note.md')).read().strip().split('\n')
     title = re.sub(r'^#+\s*', '', note[0])
-    title = re.sub(r'^(Change|change)\s+[A-N]\s*[-:(—]*\s*', '', title)
-    title = re.sub(r'^C\d\d\s+change\s+[A-N]\s*[-:]*\s*', '', title)[:110]
+    title = re.sub(r'^(Change|change)\s+[A-P]\s*[-:(—]*\s*', '', title)
+    title = re.sub(r'^C\d\d\s+change\s+[A-P]\s*[-:]*\s*', '', title)[:110]
     prop = sid.split('-')[0]
     own = ', '.join(idx[sid].get(prop, [])) or '**not reported**'
     oth = '; '.join('%s: %s' % (p, ', '.join(sorted({x.split('@')[0]
                                                     for x in v})))
                     for p, v in sorted(idx[sid].items()) if p != prop)
-    rnd = {'A': 1, 'B': 1, 'C': 2, 'D': 2, 'E': 3, 'F': 3, 'G': 4, 'H': 4, 'I': 5, 'J': 5, 'K': 6, 'L': 6, 'M': 7, 'N': 7}[sid[-1]]
+    rnd = {'A': 1, 'B': 1, 'C': 2, 'D': 2, 'E': 3, 'F': 3, 'G': 4, 'H': 4, 'I': 5, 'J': 5, 'K': 6, 'L': 6, 'M': 7, 'N': 7, 'O': 8, 'P': 8}[sid[-1]]
     f = 'yes' if sid in fr else ('n/a' if rnd == 1 else 'no')
     print('| %s | %s | %s | %s | %s |' % (sid, title.replace('|', '/'), own,
                                           oth or '-', f))
